@@ -86,13 +86,36 @@ func c10(c *core.Ctx, r *core.Report) {
 	// time.Time field; the receiver and the time parameter may have any name
 	calcT, _ := c.Named(spkg, "RateCalculator").Underlying().(*types.Struct)
 	var curFld, stagesFld *types.Var
+	nInt := 0
 	for i := 0; calcT != nil && i < calcT.NumFields(); i++ {
 		f := calcT.Field(i)
 		if isIntType(f.Type()) {
 			curFld = f
+			nInt++
 		}
 		if _, ok := f.Type().Underlying().(*types.Slice); ok {
 			stagesFld = f
+		}
+	}
+	if nInt > 1 {
+		// several int fields: the cursor is the one the stage list is indexed with
+		curFld = nil
+		for _, fn := range c.AllFuncs {
+			if core.RelPkg(fn) != spkg {
+				continue
+			}
+			an.Instrs(fn, func(in ssa.Instruction) {
+				ia, ok := in.(*ssa.IndexAddr)
+				if !ok {
+					return
+				}
+				if bf, _ := an.TerminalField(ia.X); !an.SameField(bf, stagesFld) {
+					return
+				}
+				if fa, isFA := an.Strip(ia.Index).(*ssa.FieldAddr); isFA && isIntType(an.FieldOfAddr(fa).Type()) {
+					curFld = an.FieldOfAddr(fa)
+				}
+			})
 		}
 	}
 	isLoadOf := func(v ssa.Value, fld *types.Var) bool {
@@ -257,6 +280,10 @@ func c10(c *core.Ctx, r *core.Report) {
 				if empty {
 					sawFirst = true
 					k, isK := val.(*ssa.Const)
+					if !isK {
+						// a field or parameter whose only source in the module is a constant
+						k, isK = singleSource(c, val).(*ssa.Const)
+					}
 					r.Check(isK && k.Value != nil && k.Int64() == 0, key+"#first", an.Pos(c, st), "first stage starts at 0", "the first stage starts at "+d+" instead of 0")
 				} else {
 					sawChain = true
